@@ -34,6 +34,10 @@ var texts = []string{
 	`{ nope }`,
 	`{ a { id rs arg(x: 2) b { v } } s }`,
 	`{ s`,
+	// texts that share a long prefix (or differ in one character) with another one
+	`{ a { id rs arg(x: 2) b { v } } i }`,
+	`query A($n: Int = 1, $f: Boolean = true) { echo(n: $n) s @include(if: $f) } query B { i echo(s: "c") }`,
+	`query($s: String) { echo(s: $s) s }`,
 }
 
 var opNames = []string{"", "A", "B", "M", "Zzz"}
